@@ -118,11 +118,12 @@ def _render(atoms, dih_entries, direction, counts, opls, use_define, bond_rev):
     b01 = (atoms[1], atoms[0]) if bond_rev else (atoms[0], atoms[1])
     bond_lines = ["%s %s 1 0.47 1250" % (bt(b01[0]), bt(b01[1]))]
     ang = (atoms[2], atoms[1], atoms[0]) if bond_rev else (atoms[0], atoms[1], atoms[2])
-    angle_lines = ["%s 2 120 %s" % (" ".join(bt(x) for x in ang), "ang_k" if use_define else "45")]
+    # "twice": the same macro occurs more than once in one parameter list, in a type table and in the molecule itself
+    angle_lines = ["%s 2 %s %s" % (" ".join(bt(x) for x in ang), "ang_k" if use_define == "twice" else "120", "ang_k" if use_define else "45")]
     # a macro may be defined more than once: the latest definition before its use counts (as for the GROMACS preprocessor)
-    defines = {False: "", True: "#define ang_k 77.0\n", "redefined": "#define ang_k 55.5\n#define  ang_k\t77.0\n"}[use_define]
+    defines = {False: "", True: "#define ang_k 77.0\n", "twice": "#define ang_k 77.0\n", "redefined": "#define ang_k 55.5\n#define  ang_k\t77.0\n"}[use_define]
     # a macro may also stand for the whole parameter list including the function type (GROMOS style: `3 4 gb_21`)
-    bonds_extra = "3 4 gb_x" if use_define else ""
+    bonds_extra = ("3 4 1 ang_k ang_k" if use_define == "twice" else "3 4 gb_x") if use_define else ""
     if use_define:
         defines += "#define gb_x 1 0.153 7150000.0\n"
     atomsA = "\n".join("%d %s 1 RES a%d %d 0.0" % (i + 1, atoms[i], i + 1, i + 1) for i in range(4))
@@ -184,10 +185,10 @@ def _run_bonded(sx, atoms, ents, direction, counts, opls, use_define, bond_rev):
             sx.claim(b.parameters == ["1", "0.47", "1250"], "bond type found forwards or backwards", lambda: repr(b))
             if use_define:
                 b2 = [x for x in mol.molecule.interactions["bonds"] if tuple(x.atoms) == (2, 3)]
-                sx.claim(len(b2) == 1 and b2[0].parameters == ["1", "0.153", "7150000.0"],
+                sx.claim(len(b2) == 1 and b2[0].parameters == (["1", "77.0", "77.0"] if use_define == "twice" else ["1", "0.153", "7150000.0"]),
                          "a macro standing for the whole parameter list (function type included) is substituted", lambda: repr(b2))
             a = mol.molecule.interactions["angles"][0]
-            exp = ["2", "120", "77.0" if use_define else "45"]
+            exp = ["2", "77.0" if use_define == "twice" else "120", "77.0" if use_define else "45"]
             if use_define:
                 sx.cover("define")
             sx.claim(a.parameters == exp, "angle type found and #define substituted", lambda: "%r expected %r" % (a, exp))
@@ -232,7 +233,7 @@ def bonded(sx, B):
 @condition("C09.bonded_misc",
            anchors=["polyply.src.topology:Topology.gen_bonded_interactions", "polyply.src.topology:Topology.replace_defines",
                     "polyply.src.topology:replace_defined_interaction"],
-           rejects=(), selector_only=True, must_cover=["resolved", "opls", "define", "macro redefined"],
+           rejects=(), selector_only=True, must_cover=["resolved", "opls", "define", "macro redefined", "macro twice in one parameter list"],
            outside=["interaction kinds other than bonds, angles, dihedrals"],
            bounds={"quick": dict(masks=[0, 1, 9, 14], nterm_max=2, layouts=LAYOUTS[:2]),
                    "thorough": dict(masks=list(range(16)), nterm_max=3, layouts=LAYOUTS)},
@@ -243,9 +244,11 @@ def bonded_misc(sx, B):
     atoms = ("A", "B", "C", "D")
     direction = sx.sel("direction", [0, 1])
     opls = sx.sel("opls", [False, True])
-    use_define = sx.sel("define", [False, True, "redefined"])
+    use_define = sx.sel("define", [False, True, "redefined", "twice"])
     if use_define == "redefined":
         sx.cover("macro redefined")
+    if use_define == "twice":
+        sx.cover("macro twice in one parameter list")
     bond_rev = sx.sel("types_reversed", [False, True])
     ents = [_entry(sx, 0, atoms, B["masks"], B["nterm_max"])]
     counts = sx.sel("molecules", B["layouts"])
